@@ -459,7 +459,8 @@ pub fn sized_table(k: usize, n: usize, special: u32, surv: usize, gone: usize, s
         for j in must.iter().chain(may.iter()) {
             let r = h(*j);
             if r % 5 != 0 {
-                v[*j] = model::BASES[(r >> 8) as usize % 4];
+                // mostly bases; one symbol in ten is an ambiguity code (N included): present, not missing
+                v[*j] = if (r >> 20) % 10 == 0 { b"RYSWKMBDHVN"[(r >> 28) as usize % 11] } else { model::BASES[(r >> 8) as usize % 4] };
             }
         }
         if must.iter().all(|j| v[*j] == b'-') {
